@@ -631,7 +631,8 @@ func c07Values(h *sam.Header) []string {
 		out = append(out, b.String())
 	}
 	if h.Version != "" {
-		out = append(out, fmt.Sprintf("HD VN=%q SO=%d GO=%s", h.Version, h.SortOrder, h.GroupOrder))
+		// the enum VALUES, not their String(): GroupNone and GroupUnspecified both print "none"
+		out = append(out, fmt.Sprintf("VN %q", h.Version), fmt.Sprintf("SO %d", int(h.SortOrder)), fmt.Sprintf("GO %d", int(h.GroupOrder)))
 		var b strings.Builder
 		h.Tags(func(t sam.Tag, v string) {
 			if s := t.String(); s != "VN" && s != "SO" && s != "GO" {
@@ -653,6 +654,23 @@ func c07Values(h *sam.Header) []string {
 		out = append(out, fmt.Sprintf("CO %q", c))
 	}
 	return out
+}
+
+// c07ValueDiff: the first exposed value that differs, and its class (vn, so, go, hdother, sq, rg, pg, co, count)
+func c07ValueDiff(a, b []string) (class, x, y string) {
+	for i := 0; i < len(a) || i < len(b); i++ {
+		if i >= len(a) || i >= len(b) {
+			return "count", fmt.Sprint(len(a), " values"), fmt.Sprint(len(b), " values")
+		}
+		if a[i] != b[i] {
+			k := strings.ToLower(a[i])
+			if j := strings.IndexAny(k, " #"); j > 0 {
+				k = k[:j]
+			}
+			return k, a[i], b[i]
+		}
+	}
+	return "none", "", ""
 }
 
 func c07FirstDiffLine(a, b []byte) (string, string) {
@@ -998,7 +1016,8 @@ func c07RoundTrips(tag string, h *sam.Header) *c07Fail {
 		return &c07Fail{"c07.rt.text." + c07DiffClass(x, y), tag + fmt.Sprintf("text changes on re-parse: %q -> %q", x, y)}
 	}
 	if strings.Join(v1, "\n") != strings.Join(v2, "\n") {
-		return &c07Fail{"c07.rt.text.values", tag + fmt.Sprintf("text round trip exposes different values: %q vs %q", v1, v2)}
+		k, x, y := c07ValueDiff(v1, v2)
+		return &c07Fail{"c07.rt.text.value." + k, tag + fmt.Sprintf("text round trip exposes a different value: %s -> %s (text %q)", x, y, t1)}
 	}
 	// binary
 	var b3, t3 []byte
@@ -1023,7 +1042,8 @@ func c07RoundTrips(tag string, h *sam.Header) *c07Fail {
 		return &c07Fail{"c07.rt.bin." + c07DiffClass(x, y), tag + fmt.Sprintf("binary form changes on re-decoding: text line %q -> %q", x, y)}
 	}
 	if strings.Join(v1, "\n") != strings.Join(v3, "\n") {
-		return &c07Fail{"c07.rt.bin.values", tag + fmt.Sprintf("binary round trip exposes different values: %q vs %q", v1, v3)}
+		k, x, y := c07ValueDiff(v1, v3)
+		return &c07Fail{"c07.rt.bin.value." + k, tag + fmt.Sprintf("binary round trip exposes a different value: %s -> %s (text %q)", x, y, t1)}
 	}
 	return nil
 }
@@ -1821,7 +1841,14 @@ func c07Generate(r *Rand, maxOps int, canonURI bool) *c07Gen {
 		case k < 98:
 			tag := []string{"SS", "XX", "ab", "SO", "GO", "VN"}[r.intn(6)]
 			val := []string{"", "v", "coordinate", "query", "1.6", "a:b"}[r.intn(6)]
-			if H.Version != "" || r.coin(1, 8) {
+			if r.coin(1, 2) { // the Version / SortOrder / GroupOrder fields, every enum value
+				v := c07Versions[r.intn(len(c07Versions))]
+				so, gro := 0, 0
+				if v != "" || r.coin(1, 10) {
+					so, gro = r.intn(4), r.intn(4)
+				}
+				g.emit(c07Op{K: "sh", H: h, S: v, I: so, J: gro})
+			} else if H.Version != "" || r.coin(1, 8) {
 				g.emit(c07Op{K: "hs", H: h, S: tag, V: val})
 			}
 		default:
@@ -2003,6 +2030,11 @@ func c07Corpus() [][]c07Op {
 		// a value ending in CR; a name with a TAB: no faithful text form (listed finding)
 		{{K: "pa", S: "@SQ\tSN:a\tLN:10\tAS:x\r\r\n"}},
 		{{K: "h0"}, {K: "nr", Ref: ref("na\tme", 10)}, {K: "ar", H: 0, P: 0}},
+		// every group order (GroupNone is written "GO:none" and must read back as GroupNone, not GroupUnspecified) and sort order
+		{{K: "h0"}, {K: "sh", H: 0, S: "1.6", I: 3, J: 1}},
+		{{K: "h0"}, {K: "sh", H: 0, S: "1.6", I: 1, J: 2}, {K: "cl", H: 0}},
+		{{K: "h0"}, {K: "sh", H: 0, S: "1.6", I: 2, J: 3}},
+		{{K: "h0"}, {K: "sh", H: 0, S: "1.6", I: 0, J: 0}},
 		// scheme-less URI
 		{{K: "h0"}, {K: "nr", Ref: &c07Ref{Name: "a", Len: 10, UR: "/data/a.fa"}}, {K: "ar", H: 0, P: 0}},
 	}
